@@ -2,14 +2,17 @@
   EG.Driver.Scale — model side of the `scale.chk.*` correspondence streams
   (harness/src/m_scale_chk.rs): every op runs ONE checked kernel of `EG.Model.Checked*` at the
   given integers and prints its canonical result, or `panic` where the checked kernel returns
-  `none` (= a build with overflow checks and debug assertions panics there). The other `scale.*`
-  streams (`scale.shape/text/image/reject`) have no model: oracle only (`skip`).
+  `none` (= a build with overflow checks and debug assertions panics there). `scale.adapter` ops
+  with a `calls` job are served by Driver/ScaleAdapter.lean (adapter model at display scale). The
+  other `scale.*` streams (`scale.shape/text/image/reject/dotted`, `scale.adapter` with other jobs)
+  have no model: oracle only (`skip`).
 -/
 import EG.Driver.Util
 import EG.Model.Checked
 import EG.Model.CheckedShapes
 import EG.Model.CheckedLine
 import EG.Model.CheckedData
+import EG.Driver.ScaleAdapter
 namespace EG.Driver
 open EG
 
@@ -195,6 +198,8 @@ private def handleChk (kernel : String) (t : Toks) : Option String :=
   | _ => none
 
 def handleScale (stream : String) (t : Toks) : Option String :=
-  if stream.startsWith "scale.chk." then handleChk (stream.drop 10).toString t else none
+  if stream.startsWith "scale.chk." then handleChk (stream.drop 10).toString t
+  else if stream == "scale.adapter" then handleScaleAdapter t   -- `calls` jobs only (Driver/ScaleAdapter.lean)
+  else none
 
 end EG.Driver
